@@ -479,6 +479,10 @@ class Builtins(object):
         it.ctx.log.append(('stderr', 'traceback.print_exc'))
         return None
 
+    def x_traceback_format_exc(self, it, args, kwargs):
+        # some text that is not under our control
+        return mk_str(it.ctx.fresh(z3.StringSort(), 'tbtext'))
+
     def x_functools_reduce(self, it, args, kwargs):
         # reduce(operator.mul, data): the product of the data as an uninterpreted function of the sequence (like sum / statistics.*);
         # TypeError on no data
@@ -1220,6 +1224,13 @@ class Builtins(object):
         raise OutOfReach('iter()')
 
     def b_next(self, it, args, kwargs):
+        from .world import GenItems
+        if args and isinstance(args[0], GenItems):
+            if args[0]:
+                return args[0].pop(0)
+            if len(args) > 1:
+                return args[1]
+            raise PyRaise('StopIteration', ExcInst('StopIteration'))
         raise OutOfReach('next()')
 
     def b_super(self, it, args, kwargs):
